@@ -2,7 +2,7 @@
    assembly, BufRead::lines, find_and_output with both colour arms, prefixes); clap, termcolor and
    the I/O are outside and observed on the real dev and release binaries by ./check C16. *)
 From DV Require Import Model.Base Model.Nfa Model.BwBuild Model.BwSearch Model.Api Model.Spec
-     Model.Cert Model.Cli Model.Utf8 Proofs.CliProps Proofs.Utf8Props Theory.Utf8Spec Proofs.CliColour Proofs.TrieInv Proofs.NoPanic Proofs.CliMain Model.CliRaw Proofs.CliRawMain.
+     Model.Cert Model.Cli Model.Utf8 Proofs.CliProps Proofs.Utf8Props Theory.Utf8Spec Proofs.CliColour Proofs.TrieInv Proofs.NoPanic Proofs.CliMain Model.CliRaw Proofs.CliRawMain Proofs.Utf8Sound Proofs.CliRawBytes.
 Local Open Scope N_scope.
 
 (* "the line contains an occurrence of some pattern", on the property's own vocabulary *)
@@ -213,6 +213,26 @@ Theorem lines_handed_out_before_the_first_invalid_line :
     /\ (if snd (valid_prefix ls) then rest = [] else exists l r, rest = l :: r /\ valid_utf8 l = false).
 Proof. exact valid_prefix_spec. Qed.
 Print Assumptions lines_handed_out_before_the_first_invalid_line.
+
+(* (3) the same with NO side condition left: the -p string is UTF-8 (clap hands out a String);
+   the pattern file, standard input, the file contents and the file names are ANY bytes.  The lines
+   handed out are UTF-8 (std's decoder accepts exactly the encodings of scalar-value texts:
+   Properties/C08.v, valid_utf8_is_exactly_the_image_of_the_encoder), so their occurrences lie on
+   character boundaries and the colour arm never panics. *)
+Theorem daacfind_on_arbitrary_bytes_no_side_condition :
+  forall (fl : cli_flags) (pfile pstr : option (list N)) (stdin : list N) (files : list (list N * list N)),
+  (forall s, pstr = Some s -> valid_utf8 s = true) ->
+  let pats := cli_patterns pfile pstr in
+  4 * plain_len pats <= U32_MAX - 1 ->
+  if match pfile with Some f => negb (all_lines_utf8 f) | None => false end
+  then cli_main_raw fl pfile pstr stdin files = Ok ([], 1)
+  else match spec_build_error pats with
+  | Some _ => cli_main_raw fl pfile pstr stdin files = Ok ([], 1)
+  | None => cli_main_raw fl pfile pstr stdin files = Ok (cli_expected_raw (upvs pats) fl stdin files)
+            \/ cli_main_raw fl pfile pstr stdin files = Ok ([], 1)
+  end.
+Proof. exact cli_main_raw_bytes_lemma. Qed.
+Print Assumptions daacfind_on_arbitrary_bytes_no_side_condition.
 
 (* Non-vacuity: -p ab -n on standard input "ab\n<FF>\nab\n": the first line is printed, the program
    ends with status 1 at the line that is not UTF-8 (what the real binary does). *)
